@@ -17,9 +17,12 @@ N == <<110>>
 APP == <<97, 112, 112>>
 KA == <<107, 61, 97>>                     \* k=a
 
+\* a record is a logfmt line, or - when its document is Packed - a Promtail-packed JSON line whose _entry is a logfmt line
+Packed == << <<<<112>>, <<112>>>> >>       \* marker document
+PackedDoc == [k |-> "obj", fields |-> << <<S_entry, [k |-> "str", s |-> KA]>>, <<<<120>>, [k |-> "str", s |-> Bb]>> >>]     \* {"_entry":"k=a","x":"b"}
 DocPool == IF Pools = "full"
-             THEN { << <<K, A>> >>, << <<K, Bb>> >>, << <<K, A>>, <<N, <<53>>>> >>, << <<N, <<55>>>> >>, << <<K, A>>, <<N, <<120>>>> >> }
-             ELSE { << <<K, A>> >>, << <<K, Bb>> >>, << <<K, A>>, <<N, <<55>>>> >> }
+             THEN { << <<K, A>> >>, << <<K, Bb>> >>, << <<K, A>>, <<N, <<53>>>> >>, << <<N, <<55>>>> >>, << <<K, A>>, <<N, <<120>>>> >>, Packed }
+             ELSE { << <<K, A>> >>, << <<K, Bb>> >>, << <<K, A>>, <<N, <<55>>>> >>, Packed }
 AttrPool == IF Pools = "full" THEN {<<>>, << <<APP, A>> >>, << <<APP, Bb>> >>} ELSE {<<>>, << <<APP, A>> >>}
 
 LineEq(v)  == [t |-> "line", op |-> "eq", val |-> v, re |-> REps]
@@ -31,9 +34,11 @@ LabelNum(lb, op, lit, n) == [t |-> "label", pred |-> [t |-> "num", label |-> lb,
 StagePool == IF Pools = "full"
                THEN { LineEq(A), LineEq(N), LineNeq(KA), LineRe(RCat(RLit(110), RCat(RLit(61), RAny))), LineNre(RCat(RLit(61), RLit(98))),
                       LabelM(K, "eq", A), LabelM(APP, "neq", A), LabelNum(N, "gt", <<53>>, 5), LabelNum(N, "lte", <<53>>, 5),
-                      [t |-> "logfmt"], [t |-> "distinct", label |-> K], [t |-> "distinct", label |-> APP] }
+                      [t |-> "logfmt"], [t |-> "distinct", label |-> K], [t |-> "distinct", label |-> APP], [t |-> "unpack"],
+                      [t |-> "linefmt", parts |-> << [t |-> "label", s |-> <<>>, name |-> APP] >>] }
                ELSE { LineEq(N), LineNeq(Bb), LineRe(RCat(RLit(61), RLit(98))), LabelM(K, "eq", A), LabelNum(N, "gt", <<53>>, 5),
-                      [t |-> "logfmt"], [t |-> "distinct", label |-> K], [t |-> "distinct", label |-> APP] }
+                      [t |-> "logfmt"], [t |-> "distinct", label |-> K], [t |-> "distinct", label |-> APP], [t |-> "unpack"],
+                      [t |-> "linefmt", parts |-> << [t |-> "label", s |-> <<>>, name |-> APP] >>] }
 SelPool == IF Pools # "full" THEN { <<>>, << [label |-> APP, op |-> "eq", val |-> A, re |-> REps] >> } ELSE
            { <<>>, << [label |-> APP, op |-> "eq", val |-> A, re |-> REps] >>, << [label |-> APP, op |-> "neq", val |-> A, re |-> REps] >>,
              << [label |-> APP, op |-> "re", val |-> ReText(RAlt(RLit(97), REps)), re |-> RAlt(RLit(97), REps)] >> }
@@ -46,7 +51,9 @@ VARIABLES recs, sel, stages, capL, capF, limit,      \* the case
           pc, offLabels, prefilter, offLines, avail, idx, emitted, mems
 vars == <<recs, sel, stages, capL, capF, limit, pc, offLabels, prefilter, offLines, avail, idx, emitted, mems>>
 
-MkRec(i, doc, attrs) == [id |-> i, ts |-> <<Base + i, 0>>, line |-> EncLogfmt(doc), attrs |-> attrs, doc |-> doc]
+MkRec(i, doc, attrs) ==
+  IF doc = Packed THEN [id |-> i, ts |-> <<Base + i, 0>>, line |-> EncJson(PackedDoc), attrs |-> attrs, doc |-> <<>>, jdoc |-> PackedDoc, jcanon |-> TRUE, jmal |-> FALSE, lmal |-> TRUE]
+  ELSE [id |-> i, ts |-> <<Base + i, 0>>, line |-> EncLogfmt(doc), attrs |-> attrs, doc |-> doc, jdoc |-> [k |-> "obj", fields |-> <<>>], jcanon |-> FALSE, jmal |-> TRUE, lmal |-> FALSE]
 
 Init == recs = <<>> /\ sel = <<>> /\ stages = <<>> /\ capL = {} /\ capF = {} /\ limit = 0 - 1 /\ pc = "gen"
         /\ offLabels = <<>> /\ prefilter = <<>> /\ offLines = <<>> /\ avail = <<>> /\ idx = 1 /\ emitted = <<>> /\ mems = <<>>
@@ -72,8 +79,8 @@ RECURSIVE OffloadLines(_, _)
 OffloadLines(sts, k) ==
   IF k > Len(sts) THEN <<>>
   ELSE IF sts[k].t = "line" THEN (IF sts[k].op \in capF THEN <<sts[k]>> ELSE <<>>) \o OffloadLines(sts, k + 1)
-  ELSE IF sts[k].t \in {"label", "logfmt", "drop", "keep"} THEN OffloadLines(sts, k + 1)     \* do nothing on the line: skip
-  ELSE <<>>                                                                                 \* the line or the record set changes: stop
+  ELSE IF sts[k].t \in {"label", "logfmt", "json", "pattern", "labelfmt", "drop", "keep"} THEN OffloadLines(sts, k + 1)     \* do nothing on the line: skip
+  ELSE <<>>       \* line_format, decolorize, unpack rewrite the line, distinct has memory: later line filters stay in the engine
 Plan == pc = "plan" /\ pc' = "select"
         /\ offLabels' = SelectSeq(sel, LAMBDA m : m.op \in capL)
         /\ prefilter' = SelectSeq(sel, LAMBDA m : m.op \notin capL)
